@@ -96,6 +96,52 @@ def decreq_stream(ctx, valid_cred):
     return items
 
 
+def armor_strings(ctx, valid_cred):
+    """the armor layer as dec_unarmor sees it: what lies between the prefix and the LAST suffix is handed to the base64
+    decoder whose output buffer is sized by base64_decode_length().  Classes: base64 bodies of every length mod 4 with
+    padding stripped, shortened, doubled or misplaced; embedded whitespace; more than one suffix (text, padding, a second
+    credential between the first and the last ':'); the same around a valid credential body.  Returns (class, string)."""
+    rng = ctx.rng
+    vb = valid_cred.rstrip(b"\0")[6:-1]              # base64 text of a credential the daemon minted
+    items = []
+    def add(cls, s):
+        for tail in (b"", b"\0", b"\n\0"):
+            items.append(("armor/" + cls, s + tail))
+    sizes = list(range(0, 13)) + [rng.randrange(13, 400) for _ in range(12 if ctx.thorough else 5)]
+    for n in sizes:
+        e = base64.b64encode(rnd(rng, n))
+        st = e.rstrip(b"=")
+        add("nopad%d" % (len(st) % 4), b"MUNGE:" + st + b":")
+        if st:
+            add("short%d" % ((len(st) - 1) % 4), b"MUNGE:" + st[:-1] + b":")
+        add("onepad", b"MUNGE:" + st + b"=:")
+        add("morepad", b"MUNGE:" + e + b"=:")
+        add("padmid", b"MUNGE:" + e[:len(e) // 2] + b"=" + e[len(e) // 2:] + b":")
+        add("ws", b"MUNGE:" + b" ".join(e[i:i + 3] for i in range(0, len(e), 3)) + b"\n:")
+        add("ws-after-pad", b"  MUNGE:" + e + b" \t:")
+        add("twosuffix", b"MUNGE:" + e + b":" + st + b":")
+        add("suffix-junk", b"MUNGE:" + e + b":!@#$:")
+    stv = vb.rstrip(b"=")
+    for k in range(1, 4):
+        add("valid-nopad", b"MUNGE:" + stv[:len(stv) - k + 1] + b":")
+    add("valid-twice", b"MUNGE:" + vb + b":" + vb + b":")
+    add("valid-suffix-junk", b"MUNGE:" + vb + b":junk:")
+    add("valid-suffix-pad", b"MUNGE:" + vb + b":==:")
+    add("valid-suffix-empty", b"MUNGE:" + vb + b"::")
+    add("valid-ws", b"MUNGE:" + vb[:20] + b"\r\n" + vb[20:] + b" :")
+    add("valid-after-pad", b"MUNGE:" + vb + b"AAAA:")
+    add("valid", b"MUNGE:" + vb + b":")
+    return items
+
+
+def armor_stream(ctx, valid_cred):
+    out = []
+    for cls, s in armor_strings(ctx, valid_cred):
+        b = rig.dec_req_body(s)
+        out.append((cls, rig.hdr(4, 0, len(b)) + b))
+    return out
+
+
 def unarmor(cred):
     s = cred.rstrip(b"\0")
     assert s.startswith(b"MUNGE:") and s.endswith(b":")
